@@ -199,17 +199,29 @@ def twins(chk, hscan, K):
                 'rule fixat_forced { strings: $hdr = "%s" $s1 = "S1S1#" $s2 = "nope77" condition: ($hdr at %d and for any of ($s*) : ($ at %d)) or filesize < 0 }\n'
                 'rule fixat_expr { strings: $hdr = "%s" $s1 = "S1S1#" $s2 = "nope77" condition: $hdr at %d and for any of ($s*) : ($ at (filesize - filesize + %d)) }\n'
                 ) % (et, off, o2, et, et, o2, off, et, off, o2, et, off, o2)
+        # size suffixes: a literal spelled with KB / MB is the number it spells, up to the largest value that fits (LLONG_MAX / 1024,
+        # LLONG_MAX / 1048576) -- equal to the plain literal and to the product written out
+        kmax, mmax = (2 ** 63 - 1) // 1024, (2 ** 63 - 1) // 1048576
+        kv = r.choice([kmax, kmax - 1, 1, 0, 4194303, 4194304, 2 ** 31, r.below(kmax)])
+        mv = r.choice([mmax, mmax - 1, 1, 0, 4095, 4096, 2 ** 31, r.below(mmax)])
+        src += ('rule kb_eq { condition: %dKB == %d and %dKB == %d * 1024 and bigk < %dKB + 1 }\n'
+                'rule mb_eq { condition: %dMB == %d and %dMB == %d * 1048576 and bigm < %dMB + 1 }\n'
+                ) % (kv, kv * 1024, kv, kv, kv, mv, mv * 1048576, mv, mv, mv) if (kv * 1024 + 1 < 2 ** 63 and mv * 1048576 + 1 < 2 ** 63) else (
+                'rule kb_eq { condition: %dKB == %d and %dKB == %d * 1024 and bigk <= %dKB }\n'
+                'rule mb_eq { condition: %dMB == %d and %dMB == %d * 1048576 and bigm <= %dMB }\n'
+                ) % (kv, kv * 1024, kv, kv, kv, mv, mv * 1048576, mv, mv, mv)
         s = hx(src.encode())
         # A: compiled with the final values
-        cases.append(("A%d" % i, ["newcompiler", "defi ext %d" % off, "defi nof %d" % n_of, "defi big %d" % bv, "defi ext2 %d" % o2, "add " + s, "getrules",
+        cases.append(("A%d" % i, ["newcompiler", "defi ext %d" % off, "defi nof %d" % n_of, "defi big %d" % bv, "defi ext2 %d" % o2, "defi bigk %d" % (kv * 1024), "defi bigm %d" % (mv * 1048576), "add " + s, "getrules",
                                   "scanner 0", "scan " + hx(buf), "sflags %d" % K["SCAN_FLAGS_FAST_MODE"], "scan " + hx(buf)]))
         # B: compiled with other values, redefined at rules level
-        cases.append(("B%d" % i, ["newcompiler", "defi ext %d" % other, "defi nof %d" % ((n_of + 1) % 3), "defi big 7", "defi ext2 %d" % ((o2 + 1) % 30), "add " + s, "getrules",
+        cases.append(("B%d" % i, ["newcompiler", "defi ext %d" % other, "defi nof %d" % ((n_of + 1) % 3), "defi big 7", "defi ext2 %d" % ((o2 + 1) % 30), "defi bigk 3", "defi bigm 5", "add " + s, "getrules",
+                                  "rdefi bigk %d" % (kv * 1024), "rdefi bigm %d" % (mv * 1048576),
                                   "rdefi ext2 %d" % o2, "rdefi ext %d" % off, "rdefi nof %d" % n_of, "rdefi big %d" % bv, "scanner 0", "scan " + hx(buf)]))
         # C: redefined at scanner level, after a save/load round trip
-        cases.append(("C%d" % i, ["newcompiler", "defi ext %d" % other, "defi nof %d" % ((n_of + 2) % 3), "defi big 9", "defi ext2 %d" % ((o2 + 2) % 30), "add " + s, "getrules",
-                                  "reload", "use loaded", "scanner 0", "sdefi ext2 %d" % o2, "sdefi ext %d" % off, "sdefi nof %d" % n_of, "sdefi big %d" % bv, "scan " + hx(buf)]))
-        meta[i] = {"text": text.hex(), "off": off, "other": other, "nof": n_of, "buf": buf.hex(), "rules": src, "big": bv, "o2": o2}
+        cases.append(("C%d" % i, ["newcompiler", "defi ext %d" % other, "defi nof %d" % ((n_of + 2) % 3), "defi big 9", "defi ext2 %d" % ((o2 + 2) % 30), "defi bigk 4", "defi bigm 6", "add " + s, "getrules",
+                                  "reload", "use loaded", "scanner 0", "sdefi bigk %d" % (kv * 1024), "sdefi bigm %d" % (mv * 1048576), "sdefi ext2 %d" % o2, "sdefi ext %d" % off, "sdefi nof %d" % n_of, "sdefi big %d" % bv, "scan " + hx(buf)]))
+        meta[i] = {"text": text.hex(), "off": off, "other": other, "nof": n_of, "buf": buf.hex(), "rules": src, "big": bv, "o2": o2, "kv": kv, "mv": mv}
     out, err = vlib.run_cases(hscan, cases, timeout=1800, jobs=16)
 
     def verdicts(line):
@@ -241,6 +253,9 @@ def twins(chk, hscan, K):
         elif len(set(x in va for x in ("of_none", "of_none_c", "of_none_e"))) != 1:
             chk.violation("required-strings", "`N of them` with N = %d given as an external / an expression / a literal, none of the strings in the data: "
                           "verdicts differ: %s" % (meta[i]["nof"], [x for x in ("of_none", "of_none_c", "of_none_e") if x in va]), rep)
+        elif "kb_eq" not in va or "mb_eq" not in va:
+            chk.violation("size-suffix-literal", "a literal with a KB / MB suffix is not the number it spells (%dKB, %dMB): rules matching %s; compile output %s"
+                          % (meta[i]["kv"], meta[i]["mv"], [x for x in va if x.endswith("_eq")], [l[:160] for l in out.get("A%d" % i, []) if l.startswith("cb level=e")][:2]), rep)
         elif not all(x in va for x in ("fixat_lit", "fixat_ext", "fixat_swap", "fixat_forced", "fixat_expr")):
             chk.violation("fixed-offset-overwritten", "`$hdr at %d and for any of ($s*) : ($ at %d)` holds on the data, but of its five spellings (literal, externals, "
                           "swapped operands, forced evaluation, expression offset) only %s match" % (meta[i]["off"], meta[i]["o2"], [x for x in va if x.startswith("fixat")]), rep)
